@@ -2580,7 +2580,7 @@ class SparseLogicalVector:
     def negative_index(self): [],
     
     def nonzero_index(self):
-        return [*self.set],
+        return sorted(self.set),
     nonzero = positive_index = nonzero_index
     
     def nonzero_keys(self):
